@@ -251,6 +251,9 @@ where
         if world.kill_flag.get() {
             return Some(SessionOutcome::Killed);
         }
+        if ctx.aborted.get() {
+            break;
+        }
         if plan.check_each_step && !matches!(op.kind, OpKind::Read { .. } | OpKind::Contains { .. } | OpKind::ReadAll { .. } | OpKind::ReadAllDel { .. } | OpKind::ReadWith { .. } | OpKind::CheckFilters { .. }) {
             let phase = base_phase(&plan, si).unwrap_or(if maintenance_seen { "maintenance" } else { "step" });
             check_all_queries::<K>(ctx, storage, phase, op.uid).await;
@@ -322,7 +325,8 @@ where
     let mut writes = 0;
     for i in 0..max_writes {
         let tag = Some(Tag { client: 1, uid: uid.wrapping_mul(1000).wrapping_add(i) });
-        let keyk: K = K::from(key_bytes((i % plan.n_keys.max(1) as u32) as u8, ctx.key_len));
+        // fresh keys: with duplicates disallowed a write to a live key stores nothing
+        let keyk: K = K::from(key_bytes((64 + (uid as u64 * 7 + i as u64) % 180) as u8, ctx.key_len));
         let value = value_bytes(uid.wrapping_mul(1000).wrapping_add(i), 24);
         let fault_seq_before = world.inner.borrow().last_fault_seq;
         let r = tagged(&world, tag, storage.write(&keyk, Bytes::from(value), pearl::BlobRecordTimestamp::new(1_000_000 + i as u64))).await;
@@ -379,8 +383,16 @@ where
     sess2.lazy_init = lazy;
     let mut s2: Storage<K> = build_storage::<K>(&plan.store, &sess2, &ctx.dir);
     let init_tag = Some(Tag { client: 0, uid });
+    let fault_seq_before_init = world.inner.borrow().last_fault_seq;
     let r = if lazy { tagged(&world, init_tag, s2.init_lazy()).await } else { tagged(&world, init_tag, s2.init()).await };
     if let Err(e) = r {
+        if world.inner.borrow().last_fault_seq != fault_seq_before_init {
+            // the injected fault hit init itself: the affected call reported the error
+            world.probe("fault_hit_init");
+            ctx.aborted.set(true);
+            let _ = e;
+            return Err(SessionOutcome::Dropped);
+        }
         let props: Vec<&str> = match base_phase(&plan, si) {
             Some("fault") => vec!["C11"],
             Some("cancel") => vec!["C14"],
@@ -400,9 +412,8 @@ where
     let quarantined_before: BTreeSet<usize> = world.inner.borrow().shadows.iter().filter(|(_, s)| s.quarantined).filter_map(|(n, _)| if let FileKind::Blob(id) = classify(n) { Some(id) } else { None }).collect();
     world.reconcile_dir(CORRUPTED);
     observe_ignored::<K>(ctx, &s2, sess2.ignore_corrupted.unwrap_or(plan.store.ignore_corrupted)).await;
-    // after a restart every complete record on disk is indexed: nothing is optional any more
-    ctx.optional_records.borrow_mut().clear();
-    ctx.cancelled.borrow_mut().clear();
+    // a record left behind by a failed or cancelled operation may stay invisible for good (an index
+    // file written at close describes the blob without it), or appear when the index is regenerated
     {
         let newly: Vec<usize> = world.inner.borrow().shadows.iter().filter(|(_, s)| s.quarantined).filter_map(|(n, _)| if let FileKind::Blob(id) = classify(n) { Some(id) } else { None }).filter(|b| !quarantined_before.contains(b)).collect();
         for b in newly {
@@ -414,7 +425,11 @@ where
             };
             let damaged = ctx.damaged.borrow().iter().any(|(db, _, _)| *db == b);
             match base_phase(&plan, si) {
-                Some("cancel") => ctx.violate(&["C14"], "blob-rejected-after-cancel", "after cancelled operations a blob file no longer parses and was quarantined at the next start", format!("blob {} holes={} torn={}", b, holes, torn)),
+                Some("cancel") => {
+                    let headerless = world.inner.borrow().shadows.get(&format!("{}.{}.blob", PREFIX, b)).map(|s| s.content.len() < BLOB_HEADER_LEN).unwrap_or(false);
+                    let cause = if headerless { "a cancelled creation of a blob leaves a file without a complete header which is quarantined at the next start" } else { "after cancelled operations a blob file no longer parses and was quarantined at the next start" };
+                    ctx.violate(&["C14"], "blob-rejected-after-cancel", cause, format!("blob {} holes={} torn={}", b, holes, torn))
+                }
                 Some("fault") => {
                     if !holes && !torn {
                         ctx.violate(&["C11"], "intact-blob-rejected", "a blob without any failed or partial write was quarantined at the next start", format!("blob {}", b));
@@ -440,7 +455,7 @@ where
         let nviol = ctx.violations.borrow().iter().filter(|v| v.property.contains("C03")).count();
         check_all_queries::<K>(ctx, &s2, base_phase(&plan, si).unwrap_or("restart"), uid).await;
         if accounting && crate::oracle::settle(ctx).await {
-            crate::oracle::check_accounting(ctx, &s2, "restart").await;
+            crate::oracle::check_accounting(ctx, &s2, base_phase(&plan, si).unwrap_or("restart")).await;
         }
         if ctx.violations.borrow().iter().filter(|v| v.property.contains("C03")).count() > nviol {
             // the storage no longer matches the model: everything after this point would only
@@ -494,7 +509,10 @@ where
 
     // ---- expectations computed before the call
     let mut suppressed = false;
+    let mut suppressed_alt = false;
     let mut live_blobs: BTreeSet<usize> = BTreeSet::new();
+    let mut live_blobs_alt: Vec<BTreeSet<usize>> = Vec::new();
+    let tolerant_profile = base_phase(&plan, si).map(|p| matches!(p, "fault" | "cancel" | "crash" | "bitflip")).unwrap_or(false);
     let mut had_active = false;
     let mut active_before: Option<usize> = None;
     let mut precondition_known = false;
@@ -508,12 +526,33 @@ where
                 None => matches!(view.read(&kb), crate::model::MRead::Found(_)),
             };
             suppressed = !plan.store.allow_duplicates && found;
+            suppressed_alt = suppressed;
+            if tolerant_profile && !plan.store.allow_duplicates {
+                let optional = crate::queries::optional_set(ctx, &w.phys);
+                for recs in crate::queries::admissible_record_sets(&w.phys, &attached, &optional) {
+                    let v = View::from_recs(recs);
+                    let f = match meta {
+                        Some(m) => matches!(v.read_with(&kb, &meta_map(*m)), crate::model::MRead::Found(_)),
+                        None => matches!(v.read(&kb), crate::model::MRead::Found(_)),
+                    };
+                    if f != found {
+                        suppressed_alt = !suppressed;
+                    }
+                }
+            }
         }
         OpKind::Delete { key, .. } if stepwise => {
             let kb = key_bytes(*key, ctx.key_len);
             let w = world.inner.borrow();
             let view = View::new(&w.phys, &attached);
             live_blobs = attached.iter().copied().filter(|b| view.live_in_blob(&kb, *b)).collect();
+            if tolerant_profile {
+                let optional = crate::queries::optional_set(ctx, &w.phys);
+                for recs in crate::queries::admissible_record_sets(&w.phys, &attached, &optional) {
+                    let v = View::from_recs(recs);
+                    live_blobs_alt.push(attached.iter().copied().filter(|b| v.live_in_blob(&kb, *b)).collect());
+                }
+            }
             drop(w);
             active_before = if storage.has_active_blob().await { storage.records_count_detailed().await.last().map(|x| x.0) } else { None };
         }
@@ -608,9 +647,14 @@ where
             if stepwise {
                 let kb = key_bytes(*key, ctx.key_len);
                 let value = value_bytes(op.uid, *len as usize);
-                let new: Vec<PhysRec> = ctx.new_records_since(&lens).into_iter().filter(|r| r.complete).collect();
+                // records are attributed to operations by the tag their write carried (a detached closure
+                // of an earlier cancelled operation may append its record during this one)
+                let new: Vec<PhysRec> = ctx.new_records_since(&lens).into_iter().filter(|r| r.complete && r.tag.map(|t| t.uid == op.uid).unwrap_or(true)).collect();
                 let exp_meta = meta.map(meta_map).unwrap_or_default();
-                if suppressed {
+                if suppressed != suppressed_alt {
+                    // whether the key is live depends on a record that may or may not be visible
+                    world.probe("dup_check_depends_on_optional_record");
+                } else if suppressed {
                     world.probe("dup_suppressed");
                     if !new.is_empty() {
                         ctx.violate(&["C02"], "dup-write-stored", "duplicate write stored a record although duplicates are disallowed", format!("uid={} new records {}", op.uid, new.len()));
@@ -659,7 +703,7 @@ where
             }
             if stepwise {
                 let kb = key_bytes(*key, ctx.key_len);
-                let new: Vec<PhysRec> = ctx.new_records_since(&lens).into_iter().filter(|r| r.complete).collect();
+                let new: Vec<PhysRec> = ctx.new_records_since(&lens).into_iter().filter(|r| r.complete && r.tag.map(|t| t.uid == op.uid).unwrap_or(true)).collect();
                 let exp_meta = meta.map(meta_map).unwrap_or_default();
                 let marked: Vec<usize> = new.iter().map(|r| r.blob).collect();
                 let marked_set: BTreeSet<usize> = marked.iter().copied().collect();
@@ -680,6 +724,28 @@ where
                 if marked_set == expected_alt {
                     expected = expected_alt;
                 }
+                for alt in live_blobs_alt.iter() {
+                    let mut e = alt.clone();
+                    if !*only_if_presented {
+                        if let Some(m) = active_before.or(max_after) {
+                            e.insert(m);
+                        }
+                    }
+                    if marked_set == e {
+                        expected = e;
+                        break;
+                    }
+                    let mut e2 = alt.clone();
+                    if !*only_if_presented {
+                        if let Some(m) = max_after {
+                            e2.insert(m);
+                        }
+                    }
+                    if marked_set == e2 {
+                        expected = e2;
+                        break;
+                    }
+                }
                 if !*only_if_presented && marked_set != expected {
                     // racing blob switches (manual create vs background update) can make any of the
                     // most recently created blobs the active one for a moment
@@ -694,7 +760,16 @@ where
                         }
                     }
                 }
-                if bad {
+                let misplaced = new.iter().find(|r| r.blob_offset_field != r.offset).cloned();
+                if let (Some(r), false) = (misplaced.as_ref(), fail_props.is_empty()) {
+                    let append_mode = world.inner.borrow().shadows.get(&format!("{}.{}.blob", PREFIX, r.blob)).map(|s| s.append_mode).unwrap_or(false);
+                    if append_mode {
+                        ctx.violate(&fail_props, "record-misplaced", "after a failed write on a reopened (append-mode) blob an acknowledged record landed below its reserved offset: its index entry and embedded blob_offset point past the record", format!("uid={} (deletion marker) embedded offset {} physical offset {}", op.uid, r.blob_offset_field, r.offset));
+                        ctx.aborted.set(true);
+                    }
+                }
+                if ctx.aborted.get() {
+                } else if bad {
                     ctx.violate(&["C02"], "delete-marker-mismatch", "delete stored something that is not a matching deletion marker", format!("uid={} new={:?}", op.uid, new.iter().map(|r| (r.blob, r.deleted, r.ts)).collect::<Vec<_>>()));
                 } else if fault_during_op {
                     // errors while marking closed blobs are logged and skipped by design
